@@ -16,7 +16,7 @@ func init() {
 		ID:      "C03",
 		Run:     runC03,
 		NeedSSA: true,
-		Level:   "Static analysis (write records of every encoder, from the abstract interpreter, against hand-transcribed layout tables of the specifications). Decides, for every encodable kind of the OpenFlow packages (all have a table in spec/layout.json): layout/<kind>/<field> — a write record exists at the specified offset (a size term: constant, or symbolic after variable parts), with the specified width, big-endian, under the specified presence guard, whose source is the Go field the table maps to that wire field (child encodings and list elements in order likewise); extra/<kind> — the encoder writes nothing the table does not list; presence/<setter> — each setter of an optional part of the NAT action sets the part's specified presence bit, and the encoder writes the parts in the specified order under 'part set' guards (rows of the table); lanes/<packed group> — the learn-spec header packs source kind, destination kind and bit count into the specified bits (bit-lane interpretation, every path); the OXM header lanes are C15's rule. List order: elements are written by a forward range over the slice (the only loop form the interpreter accepts in an encoder), and adders append at the tail (declen rule of C02). Together: every value put into a message through the API appears at the offset, width and byte order the specifications assign — for every value, since records are symbolic. Not decided: computed values (none here), kinds the table marks as deviating (known findings). Also decided: ctorvalue — a constructor whose payload is a specified function of its argument stores that function as one closed form on every path (vlan_vid: id | OFPVID_PRESENT, also for id 0); order/<builder>/every-path — a builder that extends a list the encoder walks extends it on every successful return (what the caller added is not dropped or folded into an earlier element).",
+		Level:   "Static analysis (write records of every encoder, from the abstract interpreter, against hand-transcribed layout tables of the specifications). Decides, for every encodable kind of the OpenFlow packages (all have a table in spec/layout.json): layout/<kind>/<field> — a write record exists at the specified offset (a size term: constant, or symbolic after variable parts), with the specified width, big-endian, under the specified presence guard, whose source is the Go field the table maps to that wire field (child encodings and list elements in order likewise); extra/<kind> — the encoder writes nothing the table does not list; presence/<setter> — each setter of an optional part of the NAT action sets the part's specified presence bit, and the encoder writes the parts in the specified order under 'part set' guards (rows of the table); lanes/<packed group> — the learn-spec header packs source kind, destination kind and bit count into the specified bits (bit-lane interpretation, every path); the OXM header lanes are C15's rule. List order: elements are written by a forward range over the slice (the only loop form the interpreter accepts in an encoder), and adders append at the tail (declen rule of C02). Together: every value put into a message through the API appears at the offset, width and byte order the specifications assign — for every value, since records are symbolic. Not decided: computed values (none here), kinds the table marks as deviating (known findings). Also decided: ctorvalue — a constructor whose payload is a specified function of its argument stores that function as one closed form on every path (vlan_vid: id | OFPVID_PRESENT, also for id 0); order/<builder>/every-path — a builder that extends a list the encoder walks extends it on every successful return (what the caller added is not dropped or folded into an earlier element). Also decided: errnoeffect/<method> — a setter that returns an error has not written to the value (no store into the receiver reaches a return that can carry an error).",
 		Assumptions: []string{
 			"spec/layout.json and spec/codes.json transcribe the cited specifications (hand-transcribed, reviewed per kind)",
 			"reviewed fixed-width facts of checker/premises.go (offsets after fixed-size byte fields)",
